@@ -466,6 +466,15 @@ def scratch_dir() -> str:
     return _SCRATCH
 
 
+def cleanup_scratch() -> None:
+    """Remove this process' scratch directory (pool workers are terminated without running atexit handlers)."""
+    global _SCRATCH
+    if _SCRATCH is not None and _SCRATCH.endswith("_" + str(os.getpid())):
+        import shutil
+        shutil.rmtree(_SCRATCH, ignore_errors=True)
+    _SCRATCH = None
+
+
 def load_db(db: Dict[str, Any]) -> Any:
     """Load a spec through the REAL odxtools loader: files are written and read via the public
     Database.add_odx_file() + refresh()."""
